@@ -26,6 +26,7 @@
 #include <sys/inotify.h>
 #include <netinet/in.h>
 #include <arpa/inet.h>
+#include <netinet/tcp.h>
 
 /* ------------------------------------------------------------------ raw syscalls */
 static long raw6(long n, long a, long b, long c, long d, long e, long f) {
@@ -94,7 +95,7 @@ static void reg(int fd, const char* kind) {
 }
 static int reg_user(int fd, const char* kind) {          /* harness-created user fd */
   struct ent* e = &L[fd];
-  e->live = 1; e->id = e->lastid = next_id++; e->bylib = 0; e->user = 1; e->xfer = 0; e->glob = 0; priv[fd] = 0;
+  e->live = 1; e->id = e->lastid = next_id++; e->bylib = 0; e->user = 1; e->xfer = 0; e->glob = 0; e->reported = 0; priv[fd] = 0;
   outf("env fd+ f%d %s cx=u", e->id, kind);
   return e->id;
 }
@@ -191,6 +192,15 @@ ssize_t recvmsg(int fd, struct msghdr* m, int fl) {
   }
   return r;
 }
+int setsockopt(int fd, int level, int opt, const void* v, socklen_t l) {
+  if (level == IPPROTO_TCP && opt == TCP_NODELAY) { int e = inject("nodelay"); if (e) { errno = e; return -1; } }
+  return (int) RAW(SYS_setsockopt, fd, level, opt, v, l);
+}
+/* libuv's allocator (uv_replace_allocator): failures injected by occurrence, like the syscalls */
+static void* a_malloc(size_t n) { if (active()) { int e = inject("malloc"); if (e) { errno = ENOMEM; return NULL; } } return malloc(n); }
+static void* a_realloc(void* p, size_t n) { if (active() && p != NULL) { int e = inject("realloc"); if (e) { errno = ENOMEM; return NULL; } } return realloc(p, n); }
+static void* a_calloc(size_t a, size_t b) { return calloc(a, b); }
+static void a_free(void* p) { free(p); }
 __attribute__((no_sanitize("address")))
 long syscall(long n, ...) {
   va_list ap; va_start(ap, n);
@@ -350,6 +360,8 @@ static void monitors(int final) {
     if (!now[k]) { viol("FD-VANISHED", "f%d (kernel %d) is not open any more but nobody logged a close", e->id, k); e->live = 0; continue; }
     if (e->bylib) { int fl = getfd_flags(k); if ((fl < 0 || !(fl & FD_CLOEXEC)) && !(e->reported & 2) && (e->reported |= 2)) viol("NO-CLOEXEC", "f%d created by libuv lacks FD_CLOEXEC at API return", e->id); }
     char ow[256]; owners_of(k, ow, sizeof ow);
+    if (ow[0] && e->user && !e->xfer && !(e->reported & 8) && (e->reported |= 8))
+      viol("BORROWED-FD", "%s keeps the caller's f%d although the call that was given it did not succeed (it will be closed behind the caller's back)", ow, e->id);
     if (!ow[0] && e->user && e->xfer) e->xfer = 0;   /* handle closed, stdio descriptor left open: back to the caller */
     if (strchr(ow, '+') && !(e->reported & 4) && (e->reported |= 4)) viol("OWNER-DUP", "f%d referenced by %s", e->id, ow);
     const char* o = ow[0] ? ow : (e->user ? "U" : e->glob ? "G" : "-");
@@ -396,6 +408,7 @@ static char pipename[1024][300];
 int main(int argc, char** argv) {
   if (argc > 1 && !strcmp(argv[1], "child")) child_main();
   main_pid = getpid();
+  uv_replace_allocator(a_malloc, a_realloc, a_calloc, a_free);
   snprintf(tmpdir, sizeof tmpdir, "%s", argc > 1 ? argv[1] : "/var/tmp");
   /* slurp the program, then free stdio 0/1 for the stdio-wrapping ops */
   static char prog[1 << 20]; size_t pl = 0; ssize_t r;
@@ -412,8 +425,8 @@ int main(int argc, char** argv) {
   char* save = NULL;
   for (char* line = strtok_r(prog, "\n", &save); line; line = strtok_r(NULL, "\n", &save)) {
     char copy[512]; snprintf(copy, sizeof copy, "%s", line);
-    char* w[16]; int nw = 0; char* sv2 = NULL;
-    for (char* t = strtok_r(copy, " \t", &sv2); t && nw < 16; t = strtok_r(NULL, " \t", &sv2)) w[nw++] = t;
+    char* w[48]; int nw = 0; char* sv2 = NULL;
+    for (char* t = strtok_r(copy, " \t", &sv2); t && nw < 48; t = strtok_r(NULL, " \t", &sv2)) w[nw++] = t;
     if (nw == 0 || w[0][0] == '#') continue;
     if (!strcmp(w[0], "fail") && nw == 4) {
       if (ninj < 8) { snprintf(injs[ninj].name, 24, "%s", w[1]); injs[ninj].k = atoi(w[2]); injs[ninj].e = atoi(w[3]); injs[ninj].fired = 0; ninj++; }
@@ -584,6 +597,10 @@ int main(int argc, char** argv) {
       if (as) { fs_done = 0; in_uv = 1; rc = (int) fs_wait(&req, uv_fs_copyfile(loop, &req, a, b, flags, fs_cb)); in_uv = 0; }
       else { rc = UVCALL(uv_fs_copyfile(loop, &req, a, b, flags, NULL)); uv_fs_req_cleanup(&req); }
       outf("ret %s", R(rc));
+    } else if ((!strcmp(op, "nodelay") || !strcmp(op, "keepalive")) && nw == 2) {
+      int i = hid(w[1]); if (!live_h(i, K_TCP)) { outf("bad-op"); goto after; }
+      int rc = !strcmp(op, "nodelay") ? UVCALL(uv_tcp_nodelay((uv_tcp_t*) HS[i].h, 1)) : UVCALL(uv_tcp_keepalive((uv_tcp_t*) HS[i].h, 1, 60));
+      outf("ret %s", R(rc)); outf("# rc=%d", rc);
     } else if (!strcmp(op, "flood") && nw == 3) {
       /* n clients connect to listening server w[1] and go away again: the connections stay in the backlog */
       int sv = hid(w[1]), n = atoi(w[2]); if (!live_h(sv, -1) || (HS[sv].kind != K_TCP && HS[sv].kind != K_PIPE) || n < 0 || n > 400) { outf("bad-op"); goto after; }
@@ -623,9 +640,9 @@ int main(int argc, char** argv) {
     } else if (!strcmp(op, "ipc_send") && nw >= 4) {
       /* ipc_send f<peer> h<receiver> kinds...: send fresh descriptors over user fd w[1] (peer of IPC pipe handle w[2]) */
       int k = kfd_of(fid(w[1])); if (k < 0 || !L[k].user || L[k].xfer) { outf("bad-op"); goto after; }
-      int fds[8], nf = 0;
-      for (int j = 3; j < nw && nf < 8; j++) fds[nf++] = !strcmp(w[j], "tcp") ? mk_sock(AF_INET, SOCK_STREAM) : !strcmp(w[j], "udp") ? mk_sock(AF_INET, SOCK_DGRAM) : mk_sock(AF_UNIX, SOCK_STREAM);
-      struct msghdr m; memset(&m, 0, sizeof m); struct iovec iv = { "x", 1 }; char cb[CMSG_SPACE(8 * sizeof(int))]; memset(cb, 0, sizeof cb);
+      int fds[32], nf = 0;
+      for (int j = 3; j < nw && nf < 32; j++) fds[nf++] = !strcmp(w[j], "tcp") ? mk_sock(AF_INET, SOCK_STREAM) : !strcmp(w[j], "udp") ? mk_sock(AF_INET, SOCK_DGRAM) : mk_sock(AF_UNIX, SOCK_STREAM);
+      struct msghdr m; memset(&m, 0, sizeof m); struct iovec iv = { "x", 1 }; char cb[CMSG_SPACE(32 * sizeof(int))]; memset(cb, 0, sizeof cb);
       m.msg_iov = &iv; m.msg_iovlen = 1; m.msg_control = cb; m.msg_controllen = CMSG_SPACE(nf * sizeof(int));
       struct cmsghdr* c = CMSG_FIRSTHDR(&m); c->cmsg_level = SOL_SOCKET; c->cmsg_type = SCM_RIGHTS; c->cmsg_len = CMSG_LEN(nf * sizeof(int));
       memcpy(CMSG_DATA(c), fds, nf * sizeof(int));
